@@ -17,6 +17,10 @@ var zzC16Pages = []string{
 	/* 5 */ `<div><b v-once>AAA</b><span v-for="i in items"><u v-once>BBB</u></span><template include="d.vuego"></template></div>`,
 	/* 6 */ `<ul><li v-for="i in items"><b v-once EXTRA>AAA</b></li></ul><p v-for="i in items"><template include="e.vuego"></template></p>`,
 	/* 7 */ `<div v-for="i in items"><template v-once EXTRA><script src="AAA"></script><i>EEE</i></template></div>`,
+	// the same component reached through different inclusion chains: directly,
+	// through another component, and as slot content of another component
+	/* 8 */ `<div><template include="d.vuego"></template><template include="wrapd.vuego"></template></div>`,
+	/* 9 */ `<div><template include="d.vuego"></template><template include="slotc.vuego"><template include="d.vuego"></template></template></div>`,
 }
 
 // expected number of occurrences of each marker
@@ -29,6 +33,8 @@ var zzC16Want = []map[string]int{
 	{"AAA": 1, "BBB": 1, "DDD": 1},
 	{"AAA": 1, "EEE": 1},
 	{"AAA": 1, "EEE": 1},
+	{"DDD": 1, "WWW": 1},
+	{"DDD": 1, "SSS": 1},
 }
 
 // other directives the marked element may carry
@@ -36,9 +42,11 @@ var zzC16Extras = []string{"", "v-pre", `v-if="yes"`, `:title="t"`, `v-show="yes
 
 func zzC16FS(extra string) *zzFS {
 	files := map[string]string{
-		"c.vuego": `<em v-once>CCC</em><q>c</q>`,
-		"d.vuego": `<s v-once>DDD</s>`,
-		"e.vuego": `<s v-once EXTRA>EEE</s>`,
+		"c.vuego":     `<em v-once>CCC</em><q>c</q>`,
+		"d.vuego":     `<s v-once>DDD</s>`,
+		"e.vuego":     `<s v-once EXTRA>EEE</s>`,
+		"wrapd.vuego": `<section>WWW<template include="d.vuego"></template></section>`,
+		"slotc.vuego": `<section>SSS<slot></slot></section>`,
 	}
 	for i, p := range zzC16Pages {
 		files["p"+string(rune('0'+i))+".vuego"] = strings.ReplaceAll(p, "EXTRA", extra)
